@@ -1898,6 +1898,9 @@ class ContractionTree:
                 i = -1
             rng = None
 
+        # random subtree searches need to be seeded as well
+        search_rng = get_rng(seed) if rng is None else rng
+
         candidates, weights = tree.calc_subtree_candidates(
             pwr=weight_pwr, what=weight_what
         )
@@ -1919,7 +1922,10 @@ class ContractionTree:
 
                 # get a subtree to possibly reconfigure
                 sub_leaves, sub_branches = tree.get_subtree(
-                    sub_root, size=subtree_size, search=subtree_search
+                    sub_root,
+                    size=subtree_size,
+                    search=subtree_search,
+                    seed=search_rng,
                 )
 
                 sub_leaves = frozenset(sub_leaves)
@@ -2088,6 +2094,7 @@ class ContractionTree:
                         "select": rng.choice(subtree_select),
                         "weight_pwr": rng.choice(subtree_weight_pwr),
                         "weight_what": rng.choice(subtree_weight_what),
+                        "seed": rng.randrange(2**32),
                     }
                     for _ in range(num_trees)
                 ]
